@@ -136,6 +136,19 @@ class PruneStub(_Stub):
     result_kind = "none"
 
 
+class RtCheckAfterStep(_Stub):
+    """rt_check(rt_factor, rt_start, rt_strict, sim) -- its own contract is RtCheck (C17).  At the call in sim_process the
+    step it judges must be the one just performed: sim.last_step == the step in flight (C17: 'a run whose simulators answer
+    instantly is never reported as too slow' -- judged against the previous step every step would look late)."""
+    target = "mosaik.scheduler.rt_check"
+    result_kind = "none"
+
+    def call_requires(self, it, A):
+        h = it.p.ghost["heap"]
+        sim = A.sim
+        return {"C17_judges_the_step_just_performed": And(h["CSd"][sim], h["LS"][sim] == h["CSv"][sim])}
+
+
 class GetMaxAdvanceStub(_Stub):
     """pure (frame proved in contracts.scheduler.GetMaxAdvance); value irrelevant for C01-C05"""
     target = "mosaik.scheduler.get_max_advance"
@@ -627,7 +640,7 @@ L2_CALLEES = [NextStepSettled, WaitForDependencies, Step, GetOutputs]
 def _base(sess, scope):
     SC.configure(sess, scope)
     for c in (SC.ScheduleStep(), SC.AdvanceProgress(), SC.NotifyDependencies(), GetInputDataAtBegin(), GetProgressStub(),
-              GetAvgProgressStub(), PruneStub(), GetMaxAdvanceStub()):
+              GetAvgProgressStub(), PruneStub(), GetMaxAdvanceStub(), RtCheckAfterStep()):
         sess.register(c)
         sess.use_contracts_for.add(c.target)
 
@@ -671,7 +684,7 @@ class SimProcess(_L2):
     target = "mosaik.scheduler.sim_process"
     loop_modifies = {1: ["P"]}
     propagates_connection_error = False   # it must turn a lost connection into a SimulationError
-    property_ids = _L2.property_ids + ["C14"]
+    property_ids = _L2.property_ids + ["C14", "C17"]
 
     def make_args(self, mk):
         M = mk.s.sched
